@@ -4,6 +4,7 @@ C09, part `aff`: the pairs returned by the affine aligners (property theorems on
 import Biogo.Model.AlignAff
 import Biogo.Spec.AffPairs
 import Biogo.Proofs.TraceWF
+import Biogo.Proofs.NWFaith
 
 namespace Biogo.Properties.C09_aff
 open Biogo.Spec.Alignment Biogo.AlignAff Biogo.Spec.AffPairs
@@ -133,6 +134,26 @@ example : swAlign (sc [[0, -1, -1], [-1, 1, -1], [-1, -1, 1]]) (-2) [1, 2, 1] [2
     .ok [⟨1, 3, 0, 2, 2⟩] := by decide +kernel
 example : fitAlign (sc [[0, -1, -1], [-1, 1, -1], [-1, -1, 1]]) (-2) [1, 2, 1] [2, 1] =
     .ok [⟨1, 3, 0, 2, 2⟩] := by decide +kernel
+
+/-- "each pair's reported score equals the score recomputed from the letters, matrix and gap
+    parameters" — **the part that holds for `NWAffine`** (`_partial`, finding K5).  Full statement:
+
+        nwAlign S open r q = .ok ps → faithful S open r q ps = true
+
+    It is false of the code (`pair_scores_not_faithful`).  What holds for all matrices, gap-open
+    values and non-empty sequences: whenever the traceback only takes `case`s that belong to its
+    current layer (the ghost flag of the model stays `false`), every block carries the sum of its
+    letter pairs and every gap pair `gapOpen` plus its per-letter gap scores. -/
+theorem pair_scores_faithful_partial (S : Matrix) (gapOpen : Int) (r q : List Nat) (hr : r ≠ [])
+    (hq : q ≠ []) (ps : List Pair) (h : nwAlignT S gapOpen r q = .ok (ps, false)) :
+    faithful S gapOpen r q ps = true :=
+  Biogo.Proofs.NWFaith.nwAlign_faithful S gapOpen r q hr hq ps h
+
+/-- non-vacuity: a traceback with a gap and no tie -/
+example : nwAlign (sc [[0, -1, -1], [-1, 1, -1], [-1, -1, 1]]) (-2) [1, 2, 1] [1, 1] =
+      .ok [⟨0, 1, 0, 1, 1⟩, ⟨1, 2, 1, 1, -3⟩, ⟨2, 3, 1, 2, 1⟩] ∧
+    tieSwitched .nw (sc [[0, -1, -1], [-1, 1, -1], [-1, -1, 1]]) (-2) [1, 2, 1] [1, 1] = false := by
+  decide +kernel
 
 /-- all letter pairs −10, gap letters −1 -/
 def tieM : List (List Int) :=
